@@ -56,6 +56,10 @@ pub struct NodeCfg {
     pub backend: Backend,
     pub rng_seed: u64,
     pub deny: Option<Prim>,
+    /// byzantine peer: this node announces a static public key that is not a valid curve point
+    /// (everything else it does follows the protocol)
+    #[serde(default)]
+    pub evil_static_pub: bool,
 }
 
 #[derive(Clone, Debug, Serialize, Deserialize)]
